@@ -26,7 +26,7 @@ def run_bin(args, data, stdout_mode='pipe', timeout=20):
         return p.returncode, None, p.stderr
 
 def run(ctx):
-    rnd = ctx['rnd']; n = 90 if ctx['tier'] == 'quick' else 1500
+    rnd = ctx['rnd']; n = 500 if ctx['tier'] == 'quick' else 1500
     cases = []; jobs = []
     for i in range(n):
         cfg = gen.pipeline_cfg(rnd)
